@@ -33,6 +33,9 @@ type Syntax struct {
 	// BoundedLoops: three-clause loops count a private counter up to a small
 	// bound (bodies cannot name it), so every generated program terminates.
 	BoundedLoops bool
+	// StrMapKeys: map keys are never literals of a non-string kind (the
+	// check passes reject those).
+	StrMapKeys bool
 	// NoMulti suppresses multi-assignment statements.
 	NoMulti bool
 	loopSeq      int
@@ -225,7 +228,13 @@ func (s *Syntax) mapLit(d int) *gt.T {
 	n := s.R.Intn(3)
 	e := make([]*gt.T, 0, 2*n)
 	for i := 0; i < n; i++ {
-		e = append(e, s.Expr(d-1), s.Expr(d-1))
+		k := s.Expr(d - 1)
+		if s.StrMapKeys {
+			for k.K == gt.KInt || k.K == gt.KFloat || k.K == gt.KBool || k.K == gt.KNil || k.K == gt.KList || k.K == gt.KMap {
+				k = gt.Str(s.pick(s.Strs))
+			}
+		}
+		e = append(e, k, s.Expr(d-1))
 	}
 	return gt.Map(e...)
 }
